@@ -3536,6 +3536,159 @@ theorem history_unbuildable_encoding_no_effects (ops : List Op) (id : Nat) (m : 
   rw [attempt_step _ op id w ha]
   exact (unbuildable_encoding_no_effects _ id m hm hb w).2
 
+/-! ### 11. the account the call data names as relayer is the ASSIGNED relayer, whoever sent the transaction
+
+C07 lists the relayer among the things the bridge-contract encoding of a message contains.  The
+relayer the expected call data is built with is `Message.AssigneeRemoteAddress` of the message AS
+STORED when the attestation runs (so after a re-assignment: the new assignee) — never something
+taken from the transaction.  A remote transaction has a sender (`TxProof.sender`: what anybody recovers
+from its signature; `none` when it carries none), and a relayer may well put ITS OWN account where
+the compass method takes the relayer — another validator relaying the message for itself, the
+previous assignee after the message was re-assigned.  Such call data is the genuine encoding in every
+other field, and it is not the encoding of that message: refused, for every action that is a
+compass call, whoever the sender is. -/
+
+/-- the relayer the stored message is assigned to (`common.HexToAddress(AssigneeRemoteAddress)`); the
+creation input of a compass upload names none -/
+def Action.relayer : Action → Option Nat
+  | .uv f _ => some f.relayer
+  | .slc f => some f.relayer
+  | .usc f _ => some f.relayer
+  | .ch f _ => some f.relayer
+  | .up _ _ _ => none
+
+/-- the same action, assigned to the relayer `r` -/
+def Action.withRelayer (a : Action) (r : Nat) : Action :=
+  match a with
+  | .uv f v => .uv { f with relayer := r } v
+  | .slc f => .slc { f with relayer := r }
+  | .usc f c => .usc { f with relayer := r } c
+  | .ch f c => .ch { f with relayer := r } c
+  | .up b c i => .up b c i
+
+/-- the stored message as it would be stored had it been assigned to the account `r` -/
+def QMsg.assignedTo (m : QMsg) (r : Nat) : QMsg := { m with action := m.action.withRelayer r }
+
+/-- (§11, auxiliary) re-assigning a message in the Go ranges to a 20-byte account keeps it in the Go
+ranges — `ReassignValidator` rewrites the assignee and nothing else. -/
+theorem withRelayer_wf (a : Action) (r : Nat) (ha : a.wf = true) (hr : r < W160) :
+    (a.withRelayer r).wf = true := by
+  cases a with
+  | uv f v =>
+    simp only [Action.withRelayer, Action.wf, UV.wf, Bool.and_eq_true, decide_eq_true_eq] at ha ⊢
+    exact ⟨⟨⟨⟨⟨⟨⟨⟨ha.1.1.1.1.1.1.1.1, ha.1.1.1.1.1.1.1.2⟩, ha.1.1.1.1.1.1.2⟩, ha.1.1.1.1.1.2⟩, ha.1.1.1.1.2⟩,
+      ha.1.1.1.2⟩, hr⟩, ha.1.2⟩, ha.2⟩
+  | slc f =>
+    simp only [Action.withRelayer, Action.wf, SLC.wf, Bool.and_eq_true, decide_eq_true_eq] at ha ⊢
+    exact ⟨ha.1, hr⟩
+  | usc f c =>
+    simp only [Action.withRelayer, Action.wf, USC.wf, Bool.and_eq_true, decide_eq_true_eq] at ha ⊢
+    exact ⟨ha.1, hr⟩
+  | ch f c =>
+    simp only [Action.withRelayer, Action.wf, CH.wf, Bool.and_eq_true, decide_eq_true_eq] at ha ⊢
+    exact ⟨⟨ha.1.1, hr⟩, ha.2⟩
+  | up b c i => rfl
+
+/-- (§11, auxiliary) re-assignment does not change the kind of action -/
+theorem withRelayer_isUp (a : Action) (r : Nat) : isUp (a.withRelayer r) = isUp a := by
+  cases a <;> rfl
+
+/-- (§11, auxiliary) after the re-assignment to `r` the relayer of a compass call is `r` -/
+theorem withRelayer_relayer (a : Action) (r : Nat) (h : isUp a = false) :
+    (a.withRelayer r).relayer = some r := by
+  cases a <;> first | rfl | cases h
+
+/-- **calldata_naming_another_relayer_rejected.** C07 "… equals the bridge-contract encoding of that
+message (…, relayer, …)", for EVERY compass-call action and EVERY account: call data that is the
+genuine encoding of the stored message in every field except that it names the account `r` where the
+message's assigned relayer belongs — i.e. whatever `VerifyAgainstTX` accepts for the message HAD IT
+BEEN ASSIGNED TO `r` (any signature prefix) — is not verified for the message as it is stored, as
+soon as `r` is not the assigned relayer.  `r` is arbitrary: another validator's account, the previous
+assignee's, the zero address, and in particular the account that SENT the transaction. -/
+theorem calldata_naming_another_relayer_rejected (m : QMsg) (hw : m.Wf) (hu : isUp m.action = false)
+    (r : Nat) (hr : r < W160) (hne : m.action.relayer ≠ some r) (data : Bytes)
+    (h : verifyAgainstTx (m.assignedTo r) data = .ok) : verifyAgainstTx m data = .notVerified := by
+  rw [← verify_not_ok_iff]
+  intro hv
+  have hw' : (m.assignedTo r).Wf := ⟨hw.id, withRelayer_wf _ _ hw.action hr, hw.cons⟩
+  have hu' : isUp (m.assignedTo r).action = false := (withRelayer_isUp m.action r).trans hu
+  obtain ⟨-, -, h1, h2, h3, h4⟩ := what_the_calldata_binds m (m.assignedTo r) hw hw' data hu hu' hv h
+  apply hne
+  cases ha : m.action with
+  | uv f v =>
+    have := (h3 f v { f with relayer := r } v ha
+      (by show m.action.withRelayer r = _; rw [ha]; rfl)).2.2.2.1
+    simpa [Action.relayer] using this
+  | slc f =>
+    have := (h1 f { f with relayer := r } ha
+      (by show m.action.withRelayer r = _; rw [ha]; rfl)).2.2.2.2.2.2
+    simpa [Action.relayer] using this
+  | usc f c =>
+    have := (h2 f c { f with relayer := r } c ha
+      (by show m.action.withRelayer r = _; rw [ha]; rfl)).2.2.2.2.2.2
+    simpa [Action.relayer] using this
+  | ch f c =>
+    have := h4 f c { f with relayer := r } c ha
+      (by show m.action.withRelayer r = _; rw [ha]; rfl)
+    have := congrArg CHFields.relayer this
+    simpa [Action.relayer] using this
+  | up b c i => rw [ha] at hu; cases hu
+
+/-- **accepted_calldata_names_the_assigned_relayer.** The same read from the accepted side (what the
+harness monitor of the same name checks on the implementation): whenever call data verified for the
+stored message is, for some account `r`, the encoding the message would have under the assignment to
+`r`, then `r` IS the assigned relayer. -/
+theorem accepted_calldata_names_the_assigned_relayer (m : QMsg) (hw : m.Wf) (hu : isUp m.action = false)
+    (data : Bytes) (hv : verifyAgainstTx m data = .ok) (r : Nat) (hr : r < W160)
+    (h : verifyAgainstTx (m.assignedTo r) data = .ok) : m.action.relayer = some r := by
+  apply Classical.byContradiction
+  intro hne
+  rw [calldata_naming_another_relayer_rejected m hw hu r hr hne data h] at hv
+  cases hv
+
+/-- **attest_ignores_the_sender.** Who sent the remote transaction decides NOTHING: the router's
+result and the whole resulting state (queue, processed set, keeper state, both logs) are the same for
+a transaction proof and for the same proof with any other — or no — recoverable sender.  In
+particular there is no second verification "against the sender": a verdict of the implementation that
+depends on the sender shows as a differing line of the correspondence test. -/
+theorem attest_ignores_the_sender (s : St) (id : Nat) (p : TxProof) (snd : Option Nat) :
+    attest s id (.tx { p with sender := snd }) = attest s id (.tx p) := by
+  have happ : ∀ m, applySuccess s.chain m { p with sender := snd } = applySuccess s.chain m p := by
+    intro m
+    unfold applySuccess
+    rfl
+  unfold attest
+  cases findMsg s.queue id with
+  | none => rfl
+  | some m => simp only [happ]
+
+/-- **sender_named_as_relayer_no_effects.** C07, second clause, for the transaction that names its
+own sender: a transaction sent from the account `a` whose call data is the message's encoding with
+`a` in the relayer's place is not accepted for the stored message unless `a` is the assigned relayer,
+and effect log, keeper state and acceptance log stay as they were — for every compass-call action,
+every state, every receipt. -/
+theorem sender_named_as_relayer_no_effects (s : St) (id : Nat) (m : QMsg)
+    (hm : findMsg s.queue id = some m) (hw : m.Wf) (hu : isUp m.action = false) (p : TxProof) (a : Nat)
+    (hs : p.sender = some a) (ha : a < W160) (hne : m.action.relayer ≠ some a)
+    (hd : verifyAgainstTx (m.assignedTo a) p.data = .ok) :
+    (attest s id (.tx p)).2 ≠ .ok ∧ (attest s id (.tx p)).1.effects = s.effects ∧
+    (attest s id (.tx p)).1.chain = s.chain ∧ (attest s id (.tx p)).1.accepted = s.accepted :=
+  non_matching_tx_no_effects s id m hm p
+    (.inr (.inr (calldata_naming_another_relayer_rejected m hw hu a ha hne p.data hd)))
+
+/-- **history_sender_named_as_relayer_no_effects.** … over all well-formed histories from the
+initial state, for the message as stored at that moment (after whatever re-assignment `update`s). -/
+theorem history_sender_named_as_relayer_no_effects (ops : List Op) (hops : OpsWf ops)
+    (hn : ops.length < U64) (id : Nat) (m : QMsg) (hm : findMsg (run {} ops).queue id = some m)
+    (hu : isUp m.action = false) (p : TxProof) (a : Nat) (hs : p.sender = some a) (ha : a < W160)
+    (hne : m.action.relayer ≠ some a) (hd : verifyAgainstTx (m.assignedTo a) p.data = .ok) :
+    (attest (run {} ops) id (.tx p)).2 ≠ .ok ∧
+    (attest (run {} ops) id (.tx p)).1.effects = (run {} ops).effects ∧
+    (attest (run {} ops) id (.tx p)).1.chain = (run {} ops).chain ∧
+    (attest (run {} ops) id (.tx p)).1.accepted = (run {} ops).accepted :=
+  sender_named_as_relayer_no_effects _ id m hm
+    (run_queue_wf ops hops hn m (findMsg_some hm).1) hu p a hs ha hne hd
+
 /-! ## non-vacuity — every example goes through `run` from the initial state `{}` -/
 
 def exVs : GoValset := { validators := [[48, 120, 97, 97]], powers := [4294967296], valsetId := 3 }
@@ -3846,5 +3999,55 @@ example : (attest (run {} (exUpOps [0xaa, 0xbb] ++
       [.update { id := 1, action := .up [0x60, 0x02, 0x11] [0xaa, 0xbb] 2, valset := exVs, sigs := [], upOk := false }]))
       1 (.tx { exP with receipt := some 0 })).2 = .txFailed := by decide
 
+
+/-! the relayer named by the call data (§11): the logic call 1 of `exS` is assigned to 0x33 -/
+/-- genuine in every field, but it names the account 0x99 as relayer -/
+def exDataNaming (rel : Nat) : Bytes :=
+  calldata selSubmitLogicCallD SLC.deliveredTys
+    [callV (0x11, [1, 2, 3]), feeV exFees 0x22, .word 1, .word 1700000000, .word rel]
+    (consensusV exVs (exSigs.take 1))
+/-- the logic call stored under id 1 in `exS` -/
+def exM1 : QMsg := { id := 1, action := .slc exF, valset := exVs, sigs := exSigs }
+set_option maxRecDepth 100000 in
+example : ((findMsg exS.queue 1).any fun m => decide (m.id = exM1.id ∧ m.action = exM1.action ∧
+    m.valset.validators = exM1.valset.validators ∧ m.valset.powers = exM1.valset.powers ∧
+    m.valset.valsetId = exM1.valset.valsetId ∧ m.sigs = exM1.sigs ∧ m.upOk = exM1.upOk)) = true := by decide
+-- call data naming 0x99 IS what would be accepted had the message been assigned to 0x99: the
+-- hypotheses of `calldata_naming_another_relayer_rejected` are satisfiable together …
+set_option maxRecDepth 100000 in
+example : exM1.Wf ∧ isUp exM1.action = false ∧ exM1.action.relayer = some 0x33 ∧ 0x99 < W160 ∧
+    verifyAgainstTx (exM1.assignedTo 0x99) (exDataNaming 0x99) = .ok := by
+  refine ⟨⟨by decide, by decide, ⟨by decide, by decide, ?_, by decide, ?_⟩⟩, by decide, by decide, by decide,
+    by decide⟩
+  · intro p hp
+    simp only [exM1, exVs, List.mem_cons, List.not_mem_nil, or_false] at hp
+    subst hp
+    decide
+  · intro x hx
+    simp only [exM1, exSigs, List.mem_cons, List.not_mem_nil, or_false] at hx
+    rcases hx with rfl | rfl <;> decide
+-- … and it is refused for the message as stored, whether the transaction was sent from 0x99 itself,
+-- from the assigned relayer, or carries no signature; nothing changes
+set_option maxRecDepth 100000 in
+example : (attest exS 1 (.tx { exP with data := exDataNaming 0x99, sender := some 0x99 })).2 = .notVerified ∧
+    (attest exS 1 (.tx { exP with data := exDataNaming 0x99, sender := some 0x33 })).2 = .notVerified ∧
+    (attest exS 1 (.tx { exP with data := exDataNaming 0x99, sender := none })).2 = .notVerified ∧
+    (attest exS 1 (.tx { exP with data := exDataNaming 0x99, sender := some 0x99 })).1.effects = [] ∧
+    (attest exS 1 (.tx { exP with data := exDataNaming 0x99, sender := some 0x99 })).1.accepted = [] := by
+  decide
+-- the genuine call data (names 0x33) is accepted whoever sent it: the assignee, another account, nobody
+set_option maxRecDepth 100000 in
+example : exDataNaming 0x33 = exData ∧
+    (attest exS 1 (.tx { exP with sender := some 0x33 })).2 = .ok ∧
+    (attest exS 1 (.tx { exP with sender := some 0x99 })).2 = .ok ∧
+    (attest exS 1 (.tx { exP with sender := none })).2 = .ok := by decide
+-- after a re-assignment to 0x99 (`update` rewrites the stored message) it is the other way round:
+-- the transaction the previous assignee 0x33 sent is refused, the one naming 0x99 accepted
+set_option maxRecDepth 100000 in
+example :
+    (attest (run {} (exOps ++ [.update (exM1.assignedTo 0x99)])) 1 (.tx { exP with sender := some 0x33 })).2
+      = .notVerified ∧
+    (attest (run {} (exOps ++ [.update (exM1.assignedTo 0x99)])) 1
+      (.tx { exP with data := exDataNaming 0x99, sender := some 0x99 })).2 = .ok := by decide
 
 end Paloma.Attest
